@@ -3,6 +3,7 @@ package main
 import (
 	"fmt"
 	"go/constant"
+	"go/token"
 	"go/types"
 	"regexp"
 	"strings"
@@ -156,6 +157,7 @@ func checkC07(c *Ctx) {
 		r.Ob("ESCAPES", "multiline mode keeps every byte as it is", t.Pos(uq.Pos()), ok, fmt.Sprintf("%d outcomes, all without error", len(outs)))
 	}
 	c07Assemble(c, uq)
+	c07Delims(c)
 	c07LexSuperset(c, accepted)
 	c07Plumbing(c)
 	c07Numbers(c)
@@ -503,4 +505,55 @@ func c07Assemble(c *Ctx, uq *ssa.Function) {
 		}
 	}
 	r.FloorN("callers of unquoteChar", n, 1)
+}
+
+// c07Delims: the unquote functions strip exactly the delimiters: Unquote one byte at each end, UnquoteMultiline
+// three — by slicing s[k:len(s)-k] (or TrimPrefix/TrimSuffix of the delimiter) and never by a cutset trim, which
+// would also eat quote characters that belong to the text.
+func c07Delims(c *Ctx) {
+	r, t := c.R, c.T
+	for _, spec := range []struct {
+		name string
+		k    int64
+	}{{"Unquote", 1}, {"UnquoteMultiline", 3}} {
+		f := t.Func(pParser, spec.name)
+		if f == nil {
+			r.Undecided("DELIMS", "parser."+spec.name, "", "unresolved anchor")
+			continue
+		}
+		r.Fn(relName(f))
+		okSlice, cutset, prefSuf := false, "", 0
+		allInstrs(f, func(in ssa.Instruction) {
+			switch x := in.(type) {
+			case *ssa.Slice:
+				if x.Low == nil || x.High == nil {
+					return
+				}
+				lo, isC := constInt(x.Low)
+				if !isC || lo != spec.k {
+					return
+				}
+				if bo, ok := x.High.(*ssa.BinOp); ok && bo.Op == token.SUB {
+					if k, isK := constInt(bo.Y); isK && k == spec.k {
+						if _, isLen := lenOf(bo.X); isLen || strings.HasPrefix(path(bo.X), "len(") {
+							okSlice = true
+						}
+					}
+				}
+			case *ssa.Call:
+				cal := x.Call.StaticCallee()
+				if cal == nil || cal.Pkg == nil || cal.Pkg.Pkg.Path() != "strings" {
+					return
+				}
+				switch cal.Name() {
+				case "Trim", "TrimLeft", "TrimRight", "TrimFunc", "TrimLeftFunc", "TrimRightFunc":
+					cutset = cal.Name()
+				case "TrimPrefix", "TrimSuffix":
+					prefSuf++
+				}
+			}
+		})
+		r.Ob("DELIMS", fmt.Sprintf("parser.%s strips exactly %d delimiter byte(s) at each end", spec.name, spec.k), t.Pos(f.Pos()), (okSlice || prefSuf >= 2) && cutset == "",
+			fmt.Sprintf("s[%d:len(s)-%d] found: %v, TrimPrefix/TrimSuffix calls: %d, cutset trim: %q — a cutset trim also removes quote characters that are part of the text", spec.k, spec.k, okSlice, prefSuf, cutset))
+	}
 }
